@@ -203,9 +203,53 @@ def check_earliest(run, rule):
     run.floor(rule, 5, "earliest-time obligations")
 
 
+def check_offset_formula(run, rule):
+    """R17.6 get_time_offset = (secs*rate + ticks) - (ref.secs*rate + ref.ticks), with the refusal of rate 0."""
+    facts = run.facts
+    f = facts.fn("CDNS::Timestamp::get_time_offset", rule=rule)
+    env = Env(f["body"])
+    ref = "p:%s" % f["params"][0]["n"]
+    rate = "p:%s" % f["params"][1]["n"]
+    rets = [n for n in ir.walk(f["body"]) if n.get("k") == "Return" and n.get("e") is not None]
+
+    def total_of(e, root):
+        """is e == root.m_secs * rate + root.m_ticks (operands in any order)?"""
+        e = unwrap_all_casts(e)
+        if isinstance(e, dict) and e.get("k") == "Ref":
+            d = env.definition(path(e))
+            if d is not None:
+                return total_of(d, root)
+        if not (isinstance(e, dict) and e.get("k") == "Bin" and e.get("op") == "+"):
+            return False
+        a, b = unwrap_all_casts(e["lhs"]), unwrap_all_casts(e["rhs"])
+        for m, t in ((a, b), (b, a)):
+            if isinstance(m, dict) and m.get("k") == "Bin" and m.get("op") == "*":
+                ps = {path_str(path(unwrap_all_casts(m["lhs"])) or ()), path_str(path(unwrap_all_casts(m["rhs"])) or ())}
+                if ps == {root + ".m_secs", rate} and path_str(path(t) or ()) == root + ".m_ticks":
+                    return True
+        return False
+    ok = False
+    why = "expected `return (secs*rate + ticks) - (reference.secs*rate + reference.ticks)`"
+    if len(rets) == 1:
+        e = unwrap_all_casts(rets[0]["e"])
+        if isinstance(e, dict) and e.get("k") == "Bin" and e.get("op") == "-":
+            l_this, r_ref = total_of(e["lhs"], "this"), total_of(e["rhs"], ref)
+            l_ref, r_this = total_of(e["lhs"], ref), total_of(e["rhs"], "this")
+            if l_this and r_ref:
+                ok = True
+            elif l_ref and r_this:
+                why = "the offset is computed as reference - this (sign reversed)"
+            else:
+                why = "the operands of the difference are not the two tick totals (secs*rate + ticks)"
+    run.ob(rule, "get_time_offset:this-minus-reference", ok, f, rets[0].get("l", f["line"]) if rets else f["line"],
+           "offset = (secs*rate + ticks) - (ref.secs*rate + ref.ticks)" if ok else why)
+    run.floor(rule, 1, "offset formula")
+
+
 def check(run):
     check_arith(run, "R17.1")
     check_refusal_order(run, "R17.2")
     check_order_ops(run, "R17.3")
     check_earliest(run, "R17.4")
     C01.check_time_reference(run, "R17.5")
+    check_offset_formula(run, "R17.6")
